@@ -181,3 +181,31 @@ func VerifC07Cause() {
 	}
 	nd.Reach("C07.cause")
 }
+
+// VerifC07Message: the message names the problem — the failing construct's own text or the wrapped
+// error's text appears in it literally, percent signs and all (concrete starting lines, since the
+// message prints the line).
+func VerifC07Message() {
+	f := c07Failing[nd.Choice(len(c07Failing))]
+	start := []int{0, 1, 7}[nd.Choice(3)]
+	path := []string{"", "dir/t.html"}[nd.Choice(2)]
+	src := "a\n" + f.src + "\ntail"
+	e := NewEngine()
+	e.StrictVariables()
+	tpl, perr := e.ParseTemplateLocation([]byte(src), path, start)
+	var err SourceError = perr
+	if perr == nil {
+		_, err = tpl.Render(Bindings{})
+	}
+	nd.Assert(err != nil, "fails")
+	if err == nil {
+		return
+	}
+	msg := err.Error()
+	nd.Assert(strings.Contains(msg, f.word) || (f.word == "convert" && (strings.Contains(msg, "abc") || strings.Contains(msg, "type"))), "message-names-problem")
+	nd.Assert(!strings.Contains(msg, "%!") && !strings.Contains(msg, "MISSING") && !strings.Contains(msg, "NOVERB") && !strings.Contains(msg, "EXTRA"), "message-is-not-a-mangled-format")
+	if c := err.Cause(); c != nil && f.word != "convert" {
+		nd.Assert(strings.Contains(msg, c.Error()) || strings.Contains(c.Error(), f.word), "message-carries-the-cause")
+	}
+	nd.Reach("C07.message")
+}
